@@ -930,7 +930,9 @@ namespace xsimd
         XSIMD_INLINE batch<T, A> gather(batch<T, A> const&, T const* src, batch<U, A> const& index,
                                         kernel::requires_arch<avx512f>) noexcept
         {
-            return _mm512_i32gather_epi32(detail::rebase_gather_index<U>(index), static_cast<const void*>(detail::rebase_gather_pointer<U, sizeof(T)>(src)), sizeof(T));
+            const void* base = detail::rebase_gather_pointer<U, sizeof(T)>(src);
+            const __m512i idx = detail::rebase_gather_index<U>(index);
+            return _mm512_i32gather_epi32(idx, base, sizeof(T));
         }
 
         template <class T, class A, class U, detail::enable_sized_integral_t<T, 8> = 0, detail::enable_sized_integral_t<U, 8> = 0>
@@ -945,7 +947,9 @@ namespace xsimd
                                             batch<U, A> const& index,
                                             kernel::requires_arch<avx512f>) noexcept
         {
-            return _mm512_i32gather_ps(detail::rebase_gather_index<U>(index), detail::rebase_gather_pointer<U, sizeof(float)>(src), sizeof(float));
+            const float* base = detail::rebase_gather_pointer<U, sizeof(float)>(src);
+            const __m512i idx = detail::rebase_gather_index<U>(index);
+            return _mm512_i32gather_ps(idx, base, sizeof(float));
         }
 
         template <class A, class U, detail::enable_sized_integral_t<U, 8> = 0>
